@@ -9,5 +9,5 @@ CONSTANTS
   ShapeNames = {"empty", "full", "deep"}
   MaxLen = 3
   Bases = {"", "out", "r1", "r2", "r3"}
-INVARIANTS InvContained InvTraversal InvFirstRoot InvDeepest InvReference InvContent InvDeterministic InvRefIsFile
+INVARIANTS InvContained InvTraversal InvPhysical InvFirstRoot InvDeepest InvReference InvContent InvDeterministic InvRefIsFile
 CHECK_DEADLOCK FALSE
